@@ -5,6 +5,7 @@ package main
 import (
 	"bytes"
 	"errors"
+	"fmt"
 	"io"
 	"math"
 	"math/rand/v2"
@@ -171,6 +172,47 @@ func heldMarshalCheck(k *K, marshal []func() ([]byte, error), write []func(io.Wr
 	return all.Bytes()
 }
 
+// arena lays several byte strings out in ONE backing buffer, adjacent to each
+// other (optionally with one guard byte in between), and returns them as
+// sub-slices whose capacity runs on into the following strings — the way
+// callers pass windows of a genome, or fields carved out of one read buffer.
+// A callee that appends to such an input, or scribbles past its length,
+// damages its neighbours; check() compares the whole buffer with a snapshot.
+type arenaT struct {
+	buf, snap []byte
+	parts     [][]byte
+}
+
+func newArena(r *rand.Rand, parts ...[]byte) *arenaT {
+	a := &arenaT{}
+	guard := r.IntN(2) == 0
+	var offs [][2]int
+	for _, p := range parts {
+		if guard {
+			a.buf = append(a.buf, '|')
+		}
+		offs = append(offs, [2]int{len(a.buf), len(a.buf) + len(p)})
+		a.buf = append(a.buf, p...)
+	}
+	a.buf = append(a.buf, "|tail-of-the-arena|"...)
+	a.buf = a.buf[:len(a.buf):len(a.buf)]
+	for _, o := range offs {
+		a.parts = append(a.parts, a.buf[o[0]:o[1]]) // cap runs to the end of the arena
+	}
+	a.snap = append([]byte{}, a.buf...)
+	return a
+}
+
+// check reports the first modified offset, or -1.
+func (a *arenaT) check() int {
+	for i := range a.buf {
+		if a.buf[i] != a.snap[i] {
+			return i
+		}
+	}
+	return -1
+}
+
 // ---------------------------------------------------------------- readers
 
 // schedReader delivers data in chunks of the given sizes (cycled), optionally
@@ -290,4 +332,14 @@ func (w *limitWriter) Write(p []byte) (int, error) {
 	w.buf = append(w.buf, p[:n]...)
 	w.k = 0
 	return n, errInjectedWrite
+}
+
+// arenaFail reports a modified arena.
+func arenaFail(k *K, a *arenaT, what string) bool {
+	if off := a.check(); off >= 0 {
+		k.Failf("input-memory-modified", "%s wrote into its caller's memory: the buffer the inputs were carved from changed at offset %d (%q -> %q)",
+			what, off, fmt.Sprintf("%.40s", a.snap[max(0, off-10):min(len(a.snap), off+10)]), fmt.Sprintf("%.40s", a.buf[max(0, off-10):min(len(a.buf), off+10)]))
+		return true
+	}
+	return false
 }
